@@ -133,15 +133,15 @@ theorem noEvict_of_keysIn (A : Analyzer κ σ γ ρ Pkt Out) (K : List κ) (tr :
 
 /-! ### the three analyzers -/
 
-theorem tls_insertsIn {R S : Type} (P : TlsParams R S) (s : Seg) (K : List FlowKey)
-    (hk : (⟨s.src, s.dst⟩ : FlowKey) ∈ K) : InsertsIn K (tlsProg P s) := by
+theorem tlsBody_insertsIn {R S : Type} (P : TlsParams R S) (s : Seg) (K : List FlowKey)
+    (hk : (⟨s.src, s.dst⟩ : FlowKey) ∈ K) : InsertsIn K (tlsBody P s) := by
   have hw : ∀ r, InsertsIn K (tlsWithReader P ⟨s.src, s.dst⟩ s.payload r) := by
     intro r; unfold tlsWithReader
     split
     · exact .remove _ _ (.ret _)
     · exact .set _ _ _ (.ret _)
     · exact .remove _ _ (.ret _)
-  unfold tlsProg
+  unfold tlsBody
   simp only
   split
   · exact .ret _
@@ -156,6 +156,13 @@ theorem tls_insertsIn {R S : Type} (P : TlsParams R S) (s : Seg) (K : List FlowK
         cases r with
         | some r => exact hw r
         | none => exact .ret _
+
+theorem tls_insertsIn {R S : Type} (P : TlsParams R S) (s : Seg) (K : List FlowKey)
+    (hk : (⟨s.src, s.dst⟩ : FlowKey) ∈ K) : InsertsIn K (tlsProg P s) := by
+  unfold tlsProg
+  split
+  · exact .remove _ _ (tlsBody_insertsIn P s K hk)
+  · exact tlsBody_insertsIn P s K hk
 
 /-- **TLS isolation for every trace with at most `cap` distinct flows.** -/
 theorem tls_isolation_cap {R S : Type} (P : TlsParams R S) (c : FlowKey) (tr : List Seg) (cap : Nat)
@@ -247,19 +254,27 @@ theorem http_insertsIn {γ Q P : Type} (H : HttpParams γ Q P) (s : Seg) (K : Li
     split
     · exact .set _ _ _ (hbody _ _ _)
     · exact hbody _ _ _
-  unfold httpProg
-  refine .get _ _ (fun r => ?_)
-  cases r with
-  | some f => exact hwith _ _ _
-  | none =>
+  have hd : InsertsIn K (httpDispatch H s) := by
+    unfold httpDispatch
     refine .get _ _ (fun r => ?_)
     cases r with
     | some f => exact hwith _ _ _
     | none =>
-      dsimp only
-      by_cases hs : s.syn = true
-      · rw [if_pos hs]; exact .insert _ _ _ _ (hk hs) (.ret _)
-      · rw [if_neg hs]; exact .ret _
+      refine .get _ _ (fun r => ?_)
+      cases r with
+      | some f => exact hwith _ _ _
+      | none =>
+        dsimp only
+        by_cases hs : s.syn = true
+        · rw [if_pos hs]; exact .insert _ _ _ _ (hk hs) (.ret _)
+        · rw [if_neg hs]; exact .ret _
+  unfold httpProg
+  split
+  · refine .get _ _ (fun f => ?_)
+    split
+    · exact hd
+    · exact .remove _ _ (.remove _ _ hd)
+  · exact hd
 
 /-- **HTTP isolation for every trace that opens at most `cap` distinct flows** (keys of its SYN
 segments), for parsers whose results do not depend on the processor state they find. -/
